@@ -24,7 +24,7 @@ from valida.rules import Rule
 from valida.schema import Schema
 
 META = {
-    "rule": "(a) 46 part terms x {long, shorthand, condition-only} styles x {type given, omitted}; (b) paths of length <= 2 "
+    "rule": "(a) 48 part terms x {long, shorthand, condition-only} styles x {type given, omitted}; (b) paths of length <= 2 "
             "over 12 parts x 5 datum x 5 multiplicity x 2 orders x key spellings (aliases, 3 letter cases); (c) every "
             "segment list of length 0-3 over {a,b,0,1,-1,1.5,''} x delimiters '/' and '.'; (d) rules = 8 paths x 5 conditions "
             "x 3 casts x 8 doc shapes x {list, tuple} path containers; (e) every 1-2 rule schema over a 10-rule pool as "
@@ -49,6 +49,9 @@ def part_spellings(p):
     """-> list of (spec, note)"""
     tag = p[0]
     out = []
+    multi = multi_shorthand(p)
+    if multi is not None:
+        out.append(multi)
     for style in ("long", "short"):
         sp = S.part_spec(p, style)
         out.append(sp)
@@ -87,6 +90,55 @@ def part_spellings(p):
         if s not in uniq:
             uniq.append(s)
     return uniq
+
+
+def multi_shorthand(p):
+    """Several dotted shorthands of the same datum kind at once: an and-combination of leaves is
+    written as one shorthand key per leaf ({'value.greater_than': 0, 'value.less_than': 2})."""
+    tag = p[0]
+    names = {"map": ("key", "value"), "list": ("index", "value"), "mol": ("key", "index", "value")}[tag]
+    cls_of = {"key": "Key", "index": "Index", "value": "Value"}
+    spec = {"type": {"map": "map_value", "list": "list_value", "mol": "map_or_list_value"}[tag]}
+    used = False
+    for n, c in zip(names, p[1:]):
+        if c is None:
+            continue
+        if c[0] == "lit":
+            c = T.leaf(cls_of[n], "equal_to", c[1])
+        leaves = []
+
+        def flat(t):
+            if t[0] == "and":
+                flat(t[1])
+                flat(t[2])
+            else:
+                leaves.append(t)
+        flat(c)
+        if len(leaves) > 1 and all(x[0] == "leaf" for x in leaves):
+            keys = [next(iter(S.cond_spec(x))) for x in leaves]
+            if len(set(keys)) == len(keys):
+                for x in leaves:
+                    spec.update(S.cond_spec(x))
+                used = True
+                continue
+        if c[0] == "leaf":
+            spec.update(S.cond_spec(c))
+        else:
+            spec[n] = S.cond_spec(c)
+    if p[-1]:
+        spec["label"] = p[-1]
+    return spec if used else None
+
+
+# (one datum kind per part: with several kinds the and-tree the parser builds is associated differently
+# from MapValue(key=.., value=..), and equality of differently associated trees is not part of C10)
+_K2 = ("and", T.leaf("Key", "greater_than", "a"), T.leaf("KeyLength", "less_than", 3))
+_I2 = ("and", T.leaf("Index", "greater_than", 0), T.leaf("Index", "less_than", 3))
+_V3 = ("and", ("and", T.leaf("ValueDataType", "not_equal_to", str), T.leaf("Value", "not_equal_to", 1)), T.leaf("Value", "truthy"))
+MULTI_SHORT_PARTS = [
+    ("map", _K2, None, None), ("list", _I2, None, "L"), ("mol", _K2, None, None, None), ("mol", None, _I2, None, None),
+    ("map", None, _V3, None), ("list", None, _V3, None), ("mol", None, None, _V3, "L"),
+]
 
 
 # ----------------------------------------------------------------------------- (b) path specs
@@ -173,7 +225,8 @@ def schema_behaviour(s, doc):
 
 # ------------------------------------------------------------------------------------ driver
 def units(tier):
-    u = [["part", i] for i in range(len(gen.PARTS) + len(LABELLED))]
+    u = [["part", i] for i in range(len(gen.PARTS) + len(LABELLED) + len(MULTI_SHORT_PARTS))]
+    u += [["primhist", i] for i in range(len(PRIM_PATHS))]
     plen = 1 if tier == "quick" else 2
     npaths = len(list(gen.paths(plen, gen.PARTS12)))
     u += [["path", plen, lo, hi] for lo, hi in gen.chunks(npaths, 6)]
@@ -191,11 +244,19 @@ def run_unit(unit, tier):
     res = Result()
     kind = unit[0]
     if kind == "part":
-        p = (gen.PARTS + LABELLED)[unit[1]]
+        p = (gen.PARTS + LABELLED + MULTI_SHORT_PARTS)[unit[1]]
         if p[0] != "prim":
             for si, sp in enumerate(part_spellings(p)):
                 check_part(res, p, sp, key=("part", unit[1], si))
             res.sample({"kind": "part", "part": p, "spec": part_spellings(p)[-1]})
+    elif kind == "primhist":
+        # H-space for hidden parser state: from the pristine state parse path i, then every other
+        # primitive path (hash-equal parts of different type: 1 / 1.0 / True, 0 / 0.0 / False)
+        first = PRIM_PATHS[unit[1]]
+        check_prim(res, first, [])
+        for q in PRIM_PATHS:
+            check_prim(res, q, [first])
+        res.sample({"kind": "primhist", "parts": list(first), "before": []})
     elif kind == "path":
         ps = list(gen.paths(unit[1], gen.PARTS12))
         for pi in range(unit[2], unit[3]):
@@ -234,9 +295,37 @@ def run_unit(unit, tier):
     return res
 
 
+PRIM_PATHS = [(1,), (1.0,), (True,), (0,), (0.0,), (False,), ("a", 1), ("a", 1.0), ("a", True), ("1",), (-1,), (-1.0,),
+              ("a", 0), ("a", 0.0), ("a", False), (1, "a"), (1.0, "a")]
+
+
+def check_prim(res, parts, before):
+    """from_part_specs(*parts) == DataPath(*parts), type-exactly, after `before` was parsed."""
+    res.count("evaluations")
+    res.states.add(hash(("prim", repr(parts), repr(before))))
+    case = {"kind": "primhist", "parts": list(parts), "before": [list(b) for b in before]}
+    for b in before:
+        DataPath.from_part_specs(*b)
+        Rule.from_spec({"path": list(b), "condition": {}})
+    res.count("transitions", 2)
+    built = DataPath(*parts)
+    for how, parsed in (("from_part_specs", DataPath.from_part_specs(*parts)),
+                        ("Rule.from_spec", Rule.from_spec({"path": list(parts), "condition": {}}).path)):
+        if not (parsed == built) or vsnap(parsed) != vsnap(built):
+            res.violation("primhist:%s" % how, "%s(%r) after parsing %r gives %r, the API builds %r"
+                          % (how, parts, before, parsed, built), case, observed=repr(parsed), expected=repr(built))
+            return
+    res.count("validated")
+    if before:
+        res.count("nontrivial")
+
+
 def replay(case):
     res = Result()
     k = case["kind"]
+    if k == "primhist":
+        check_prim(res, tuple(case["parts"]), [tuple(b) for b in case["before"]])
+        return list(res.violations.values())
     if k == "part":
         check_part(res, case["part"], case["spec"], key=("replay",))
     elif k == "path":
